@@ -110,12 +110,12 @@ CLAIMED = {
 # dimensions added after the seeded-change rounds 3 and 4 (appended to the level text)
 ADDED = {
  "C18": " Index file cut at a packet boundary (states short-index..).",
- "C16": " A second file edited in the same state (insertion inside its last full slice). Forged CRC-32 values: the first survivor behind the edit has CRC-32 0; two slices share one CRC-32.",
+ "C16": " A second file edited in the same state (insertion inside its last full slice). Forged CRC-32 values: the first survivor behind the edit has CRC-32 0; two slices share one CRC-32. Small-scope instance i5 (three files, contents rotated among the names, one slice corrupted, one recovery block) replayed edge by edge.",
  "C12": " Wide codes (32, 64, 256 data shards) over 16-100 byte shards with 300 (3000) free-running repetitions per goroutine count. Lengths of a few whole 64 KiB blocks plus a remainder; goroutine counts 4, 6, 7.",
  "C06": " All optional PAR2 packet types in 15 shapes; sets with non-recovery-set files. A second creator packet with different text in one file.",
- "C01": " Big sets also vary the index base name, use literal odd protected names (backslash, glob and shell characters, spaces), protected siblings and bystanders with temporary-file / backup suffixes, duplicated volumes and a copy of the index. Create refusing a legitimate set is a judged event (create_accepts_legitimate_set); files of exactly 1 and 2 MiB; case twins deleted in both orders; set-lookalike and temp-suffix protected names. Dot-named components below the top level; files that lost only some of the zero bytes their last slice ends in. Forged CRC-32 values (two different slices with one CRC-32; a slice with CRC-32 0).",
- "C02": " Bystanders with names derived from the names Create / Repair read and write (.tmp, ~, .bak) are present around every Create and Repair of the big sets. Stale recovery volumes of the same set id with every file lost (several files rewritten in one Repair).",
- "C03": " Big sets include volumes copied under another name (distinct-block count), literal odd names and several index base names. Files of exactly 1 and 2 MiB with a slice size that does not divide them; 256 / 512 identical slices.",
+ "C01": " Big sets also vary the index base name, use literal odd protected names (backslash, glob and shell characters, spaces), protected siblings and bystanders with temporary-file / backup suffixes, duplicated volumes and a copy of the index. Create refusing a legitimate set is a judged event (create_accepts_legitimate_set); files of exactly 1 and 2 MiB; case twins deleted in both orders; set-lookalike and temp-suffix protected names. Dot-named components below the top level; files that lost only some of the zero bytes their last slice ends in. Forged CRC-32 values (two different slices with one CRC-32; a slice with CRC-32 0). Small-scope instance i5 (three files, contents rotated among the names, one slice corrupted, one recovery block) replayed edge by edge.",
+ "C02": " Bystanders with names derived from the names Create / Repair read and write (.tmp, ~, .bak) are present around every Create and Repair of the big sets. Stale recovery volumes of the same set id with every file lost (several files rewritten in one Repair). Small-scope instance i5 (three files, contents rotated among the names, one slice corrupted, one recovery block) replayed edge by edge.",
+ "C03": " Big sets include volumes copied under another name (distinct-block count), literal odd names and several index base names. Files of exactly 1 and 2 MiB with a slice size that does not divide them; 256 / 512 identical slices. Small-scope instance i5 (three files, contents rotated among the names, one slice corrupted, one recovery block) replayed edge by edge.",
  "C04": " Big sets vary the index base name and include protected siblings with temporary-file / backup suffixes. Create refusing a legitimate set (e.g. 200 files + 56 volumes) is a judged event. PAR1 files of 1.2 and 2 MiB with a gap in the volume numbers.",
  "C05": " A reduced list of sets with large coding matrices is recorded again in processes started with other GOMAXPROCS values. Inputs named like files of the set being written; constant, periodic and all-zero contents; hundreds of recovery blocks. A 6 MB set with slice size 40000.",
  "C07": " Erasure patterns whose elimination needs overlapping row exchanges are found by simulating the elimination with the independent field; 2 MiB shards; the seeded codes are run again under GOMAXPROCS=3. Every fifth round with a spare parity shard puts garbage into that spare (only 'nil error means originals' and 'supplied shards untouched' are judged there); a supplied shard removed from the caller's slice counts as altered; every small pattern is visited again after other codes were used (process-wide caches).",
